@@ -58,6 +58,7 @@ def main():
             props = core.compile_properties(pid)
             if not props["ok"]:
                 broken.append(props["error"])
+    t_build = time.time() - t0
     gate = core.grep_gate()
     if gate:
         broken.append({"file": gate[0].split(":")[0], "theorem": "grep-gate", "message": "; ".join(gate[:5])})
@@ -74,6 +75,8 @@ def main():
     # correspondence
     stats = core.Stats()
     kc = (0, True, "")
+    t1 = time.time()
+    t_corr = t_kc = 0.0
     if runner_ok:
         nshards, budget_s = pmod.BUDGET[tier]
         stats = core.run_all_shards(pmod, tier, seed, nshards, budget_s)
@@ -82,7 +85,10 @@ def main():
         else:
             st_expr, imports = "RState.init", ""
         samples = stats.runner_samples[:240]
+        t_corr = time.time() - t1
+        t2 = time.time()
         kc = core.kernel_crosscheck(pid, samples, st_expr, imports)
+        t_kc = time.time() - t2
         if not kc[1]:
             broken.append({"file": "runner/driver.ml", "theorem": "kernel cross-check of the extracted runner", "message": kc[2]})
     if hasattr(pmod, "extra_checks"):
@@ -139,6 +145,7 @@ def main():
         "known_findings_seen": stats.known_seen, "broken_obligations": broken, "notes": notes,
         "exhaustive": bool(getattr(pmod, "EXHAUSTIVE", {}).get(tier, False)),
         "modelled_not_verified": getattr(pmod, "MODELLED", ""),
+        "phase_seconds": {"build_and_proofs": round(t_build, 1), "correspondence": round(t_corr, 1), "kernel_crosscheck": round(t_kc, 1)},
     }
     core.write_evidence(pid, tier, seed, coverage, list(getattr(pmod, "ASSUMPTIONS", [])), wall, len(lines))
     for l in known_lines:
@@ -147,7 +154,7 @@ def main():
         print(l)
     print(f"[{pid} {tier}] obligations {discharged}/{obligations}, cases {stats.evaluations} "
           f"(nontrivial {len(stats.nontrivial)}, undefined {stats.undefined}), kernel cross-check {kc[0]} ok={kc[1]}, "
-          f"violations {len(lines)}, {wall:.1f}s")
+          f"violations {len(lines)}, {wall:.1f}s (build {t_build:.0f}s, correspondence {t_corr:.0f}s, kernel {t_kc:.0f}s)")
     return 1 if lines else 0
 
 
